@@ -16,6 +16,7 @@ from scenic.core.simulators import Action
 
 EVENTS = []
 TABLE = {}
+RTABLE = {}      # condition name -> row of booleans: evaluating the condition at step t raises a rejection
 
 
 def now():
@@ -23,6 +24,11 @@ def now():
 
 
 def tv(name):
+    if name in RTABLE:
+        rrow = RTABLE[name]
+        if rrow[now()] if now() < len(rrow) else rrow[-1]:
+            from scenic.core.dynamics.utils import RejectSimulationException
+            raise RejectSimulationException("rejection raised while evaluating " + name)
     row = TABLE[name]
     t = now()
     return bool(row[t] if t < len(row) else row[-1])
@@ -166,6 +172,7 @@ def normalize(case):
     hascompose, compose) and top."""
     case.setdefault("impl", 0)
     case.setdefault("invimpl", 0)
+    case.setdefault("rtable", {})
     if "sdefs" not in case:
         case["sdefs"] = [{
             "pre": [], "termWhen": case["termWhen"], "termSimWhen": case["termSimWhen"],
@@ -445,6 +452,8 @@ def run_case(case, text, scratch_dir, raise_guards=False, timeout=10):
         return {"error": f"compile: {type(e).__name__}: {e}"}
     vlog.TABLE.clear()
     vlog.TABLE.update(case["table"])
+    vlog.RTABLE.clear()
+    vlog.RTABLE.update(case.get("rtable", {}))
     del vlog.EVENTS[:]
     sim = make_simulator(vlog, case["sched"])
     dt = Fraction(case["dt"][0], case["dt"][1])
